@@ -14,12 +14,13 @@ import (
 // ---- C19: custom delimiters are equivalent to the defaults, hyphens included ----
 
 type c19Case struct {
-	D    [4]string   `json:"d"` // as passed to Engine.Delims ("" = default for that position)
-	P    *hx.Program `json:"p"`
-	Hy   []bool      `json:"hy,omitempty"`
-	Fail int         `json:"fail"`           // 0 none; n > 0: a failing object after n newlines at the end
-	Prev *[4]string  `json:"prev,omitempty"` // an earlier Delims call on the same engine (the later call decides)
-	Inc  bool        `json:"inc,omitempty"`  // the template is registered with ParseTemplateAndCache and rendered through an include tag
+	D        [4]string   `json:"d"` // as passed to Engine.Delims ("" = default for that position)
+	P        *hx.Program `json:"p"`
+	Hy       []bool      `json:"hy,omitempty"`
+	Fail     int         `json:"fail"`                // 0 none; n > 0: a failing object after n newlines at the end
+	Prev     *[4]string  `json:"prev,omitempty"`      // an earlier Delims call on the same engine (the later call decides)
+	PrevUsed bool        `json:"prev_used,omitempty"` // with Prev: something is parsed and rendered between the two Delims calls
+	Inc      bool        `json:"inc,omitempty"`       // the template is registered with ParseTemplateAndCache and rendered through an include tag
 }
 
 // c19ViaInclude registers src under a name and renders a template that includes it.
@@ -52,7 +53,8 @@ func c19Valid(d hx.Delims) bool {
 	q := []string{d.OL, d.OR, d.TL, d.TR}
 	for i := range q {
 		for j := range q {
-			if i != j && strings.Contains(q[i], q[j]) {
+			// "four distinct, mutually non-prefixing" strings (one may well occur inside another)
+			if i != j && strings.HasPrefix(q[i], q[j]) {
 				return false
 			}
 		}
@@ -110,6 +112,11 @@ var c19Equiv = hx.Define("c19.equivalence", func(c *c19Case, s *hx.Sub) *hx.Viol
 		if c.Prev != nil {
 			eng = newEngine(nil)
 			eng.Delims(c.Prev[0], c.Prev[1], c.Prev[2], c.Prev[3])
+			if c.PrevUsed {
+				// the engine is used under its first configuration before it is given the second
+				pe := c19Effective(*c.Prev)
+				_, _ = eng.ParseAndRenderString(hx.Spell([]hx.Tok{{Kind: hx.TText, Body: "a"}, {Kind: hx.TObj, Body: "1"}, {Kind: hx.TTag, Body: "assign q = 2", Name: "assign"}}, pe, nil), nil)
+			}
 			eng.Delims(c.D[0], c.D[1], c.D[2], c.D[3])
 		} else {
 			eng = c19Engine(c.D)
@@ -329,6 +336,7 @@ func TestC19(t *testing.T) {
 		if rapid.IntRange(0, 3).Draw(t, "reconfigured") == 0 {
 			prev := genQuad(punct).Draw(t, "previous-quadruple")
 			c.Prev = &prev
+			c.PrevUsed = rapid.Bool().Draw(t, "used-between")
 		}
 		c.Inc = rapid.IntRange(0, 4).Draw(t, "through-include") == 0
 		if v := eq.Run(c); v != nil {
